@@ -40,6 +40,25 @@ FUNCS = [
     dict(file=SCK, cls="StandardQTomographySimulationCheck", name="execute_physicality_violation_check",
          params=[("self", "cfg"), ("show_detail", "flag")], ret="bool", extra=[("ests", "ests"), ("num_data", "numdata")]),
 ]
+# depolarising-noise constructors (objects are their numbers; n = c_sys.dim ** 2 is the binder of a `csys` value)
+DEP = "quara/simulation/depolarized_qoperation_generation_setting.py"
+SKIP6 = lambda names: [(n_, "skip") for n_ in names]
+FUNCS += [
+    dict(file="quara/objects/gate.py", name="get_depolarizing_channel", params=[("p", "F"), ("c_sys", "csys")], ret="gate"),
+    dict(file=DEP, cls="DepolarizedQOperationGenerationSetting", name="__init__", coq="DepolarizedSetting_init",
+         params=[("self", "dsetnew"), ("c_sys", "skip"), ("qoperation_base", "skip"), ("error_rate", "F"), ("ids", "skip"), ("is_physicality_required", "skip")], ret="unit"),
+] + [dict(file=DEP, cls="DepolarizedQOperationGenerationSetting", name="generate_" + k_, coq="DepolarizedSetting_generate_" + k_,
+          params=[("self", "dset")], basetype=k_, extra=[("error_rate", "F"), ("base", k_), ("n", "csys")], ret=k_) for k_ in ("state", "povm", "gate", "mprocess")] + [
+    dict(file="quara/objects/qoperation_typical.py", name="generate_qoperation_depolarized", coq="generate_qoperation_depolarized_" + k_, nocall=True,
+         params=[("mode", "const:" + k_), ("name", "skip"), ("c_sys", "csys"), ("error_rate", "F"), ("ids", "skip"), ("is_physicality_required", "skip")],
+         extra=[("base", k_)], basetype=k_, ret=k_) for k_ in ("state", "povm", "gate", "mprocess")] + [
+    dict(file="quara/objects/qoperation_typical.py", name="generate_qoperation_depolarized", coq="generate_qoperation_depolarized_other", nocall=True,
+         params=[("mode", "const:<any other string>"), ("name", "skip"), ("c_sys", "csys"), ("error_rate", "F"), ("ids", "skip"), ("is_physicality_required", "skip")],
+         extra=[("base", "state")], basetype="state", ret="state")]
+OBJ = ("state", "povm", "gate", "mprocess")
+COMPOSE = {("gate", "state"): ("compose_gate_state", "state"), ("povm", "gate"): ("compose_povm_gate", "povm"),
+           ("gate", "gate"): ("compose_gate_gate", "gate"), ("gate", "mprocess"): ("compose_gate_mprocess", "mprocess")}
+
 # module-level thresholds of physicality_violation_check.py -> fields of the record `thresholds`; the defining statements are checked
 GLOBALS = {"__eq_const_eps_true": ("(t_atol th)", "Settings.get_atol()"), "__eq_const_eps_false": ("(t_eq_false th)", "10 ** (-5)"),
            "__ineq_const_eps": ("(t_ineq th)", "10 ** (-5)")}
@@ -47,7 +66,8 @@ KINDS = {"LinearEstimator": ("ELinear", "quara.protocol.qtomography.standard.lin
          "ProjectedLinearEstimator": ("EProjLinear", "quara.protocol.qtomography.standard.projected_linear_estimator"),
          "LossMinimizationEstimator": ("ELossMin", "quara.protocol.qtomography.standard.loss_minimization_estimator")}
 COQTY = {"bool": "bool", "nat": "nat", "F": "F", "est": "est F", "row": "list (est F)", "ests": "list (list (est F))", "numdata": "nat",
-         "cfg": "chkcfg", "lbool": "list bool", "lest": "list (est F)"}
+         "cfg": "chkcfg", "lbool": "list bool", "lest": "list (est F)", "csys": "nat", "unit": "unit",
+         "state": "rvec F", "povm": "list (rvec F)", "gate": "rmat F", "mprocess": "list (rmat F)", "rvec": "rvec F"}
 ELEM = {"ests": "row", "lest": "est", "row": "est"}
 
 
@@ -123,6 +143,26 @@ class Fn:
             self.safe(st.value, env); return True
         return False
 
+    # ------------------------------------------------------------------ numbers of the ordered field (pure)
+    def num(self, e, env):
+        if isinstance(e, ast.Constant) and type(e.value) is int and e.value in (0, 1):
+            return "(c%d F)" % e.value
+        if isinstance(e, ast.Name) and env.get(e.id, (None, None))[1] == "F":
+            return env[e.id][0]
+        if isinstance(e, ast.Attribute) and isinstance(e.value, ast.Name) and env.get(e.value.id, (None, None))[1] == "dset" and e.attr == "error_rate":
+            return "error_rate"
+        if isinstance(e, ast.BinOp) and isinstance(e.op, ast.Sub):
+            return "(csub F %s %s)" % (self.num(e.left, env), self.num(e.right, env))
+        fail(e, "number %s" % ast.unparse(e))
+
+    def is_n(self, e, env):
+        """is e the number of basis elements  <csys>.dim ** 2 ?  -> the coq term of n"""
+        if isinstance(e, ast.BinOp) and isinstance(e.op, ast.Pow) and isinstance(e.right, ast.Constant) and e.right.value == 2 \
+                and isinstance(e.left, ast.Attribute) and e.left.attr == "dim" and isinstance(e.left.value, ast.Name) \
+                and env.get(e.left.value.id, (None, None))[1] == "csys":
+            return env[e.left.value.id][0]
+        return None
+
     # ------------------------------------------------------------------ expressions, continuation-passing:
     # ex(e, env, k) = Coq text of type `option R`;  k(term, type) receives a PURE term for the value of e
     def ex(self, e, env, k):
@@ -155,7 +195,7 @@ class Fn:
             return self.ex(e.test, env, lambda c, tyc: self.ifexp(e, c, tyc, env, k))
         if isinstance(e, ast.UnaryOp) and isinstance(e.op, ast.Not):
             return self.ex(e.operand, env, lambda t, ty: k("(negb %s)" % t, "bool") if ty == "bool" else fail(e, "not of %s" % ty))
-        if isinstance(e, ast.Compare) and len(e.ops) == 1:
+        if isinstance(e, ast.Compare):
             return self.compare(e, env, k)
         if isinstance(e, ast.ListComp):
             return self.listcomp(e, env, k)
@@ -170,6 +210,12 @@ class Fn:
                  ("simset", "estimator"): (t, "estimator"), ("simset", "algo_option"): (t, "algoopt"),
                  ("algoopt", "on_algo_eq_constraint"): ("(k_algo_eq %s)" % t, "bool"), ("algoopt", "on_algo_ineq_constraint"): ("(k_algo_ineq %s)" % t, "bool"),
                  ("row", "estimated_qoperation_sequence"): (t, "lest"), ("est", "on_para_eq_constraint"): ("(e_para %s)" % t, "bool")}
+        if ty == "dset" and a == "error_rate":
+            return k("error_rate", "F")
+        if ty == "dset" and a == "qoperation_base":
+            return k("base", self.spec["basetype"])
+        if ty in OBJ and a == "composite_system":
+            return k("n", "csys")
         if (ty, a) in table:
             return k(*table[(ty, a)])
         if (ty, a) == ("row", "estimated_qoperation"):       # property: the estimate of the FIRST sample size, sequence[0]
@@ -191,7 +237,15 @@ class Fn:
         return "(if %s then %s else %s)" % (c, self.ex(e.body, env, k), self.ex(e.orelse, env, k))
 
     def compare(self, e, env, k):
+        if len(e.ops) == 2 and all(isinstance(o, ast.LtE) for o in e.ops):
+            return k("(py_chain_le F %s %s %s)" % (self.num(e.left, env), self.num(e.comparators[0], env), self.num(e.comparators[1], env)), "bool")
+        if len(e.ops) != 1:
+            fail(e, "comparison chain")
         op, l, r = e.ops[0], e.left, e.comparators[0]
+        # <mode parameter> == "literal": decided by the specialisation constant of the signature table
+        if isinstance(op, ast.Eq) and isinstance(l, ast.Name) and str(env.get(l.id, (None, ""))[1]).startswith("const:") \
+                and isinstance(r, ast.Constant) and isinstance(r.value, str):
+            return k("true" if env[l.id][1] == "const:" + r.value else "false", "bool")
         # type(<estimator>) == Class
         if isinstance(op, ast.Eq) and isinstance(l, ast.Call) and isinstance(l.func, ast.Name) and l.func.id == "type" and len(l.args) == 1:
             if not (isinstance(r, ast.Name) and r.id in KINDS and self.modnames.get(r.id) == KINDS[r.id][1] + "." + r.id):
@@ -254,6 +308,34 @@ class Fn:
                     fail(e, ".%s of a value of type %s" % (f.attr, ty))
                 return self.args(args, ["F"] * len(args), env, e, lambda ts: k("(%s F %s %s)" % (coq, t, " ".join(ts)), "bool"))
             return self.ex(f.value, env, with_obj)
+        u = ast.unparse(f)
+        kws = {kw.arg: kw.value for kw in e.keywords}
+        if u == "np.array" and len(e.args) == 1 and set(kws) <= {"dtype"}:
+            a0 = e.args[0]       # [x] + [y] * (n - 1)
+            if isinstance(a0, ast.BinOp) and isinstance(a0.op, ast.Add) and isinstance(a0.left, ast.List) and len(a0.left.elts) == 1 \
+                    and isinstance(a0.right, ast.BinOp) and isinstance(a0.right.op, ast.Mult) and isinstance(a0.right.left, ast.List) and len(a0.right.left.elts) == 1 \
+                    and isinstance(a0.right.right, ast.BinOp) and isinstance(a0.right.right.op, ast.Sub) and self.is_n(a0.right.right.left, env) is not None \
+                    and isinstance(a0.right.right.right, ast.Constant) and a0.right.right.right.value == 1:
+                return k("(vec_cons1 F %s %s)" % (self.num(a0.left.elts[0], env), self.num(a0.right.left.elts[0], env)), "rvec")
+            fail(e, "np.array argument shape")
+        if u == "np.diag" and len(e.args) == 1 and not kws:
+            return self.ex(e.args[0], env, lambda t, ty: k("(np_diag F %s)" % t, "rmat") if ty == "rvec" else fail(e, "np.diag of %s" % ty))
+        if u == "Gate" and not e.args and set(kws) == {"hs", "c_sys"}:
+            return self.ex(kws["hs"], env, lambda t, ty: k(t, "gate") if ty == "rmat" else fail(e, "Gate(hs=<%s>)" % ty))
+        if u == "compose_qoperations" and len(e.args) == 2 and not kws:
+            def comp(a, ta):
+                def comp2(b, tb):
+                    if (ta, tb) not in COMPOSE:
+                        fail(e, "compose_qoperations(%s, %s)" % (ta, tb))
+                    fn, rt = COMPOSE[(ta, tb)]
+                    return k("(%s F n_ %s %s)".replace("n_", self.nterm(env)) % (fn, a, b), rt)
+                return self.ex(e.args[1], env, comp2)
+            return self.ex(e.args[0], env, comp)
+        if u == "generate_qoperation" and not e.args and self.spec.get("basetype") and "base" in [p_ for p_, _ in self.spec.get("extra", [])]:
+            for v_ in kws.values():
+                if not isinstance(v_, ast.Name):
+                    fail(e, "generate_qoperation argument")
+            return k("base", self.spec["basetype"])       # the ideal object named by (mode, name): an INPUT of the translated function
         if isinstance(f, ast.Name) and f.id == "len" and len(e.args) == 1 and not e.keywords:
             return self.ex(e.args[0], env, lambda t, ty: k("(length %s)" % t, "nat") if ty in ("lbool", "lest", "ests") else fail(e, "len of %s" % ty))
         # a translated function, by name or as physicality_violation_check.<name>
@@ -261,7 +343,7 @@ class Fn:
                                                      and self.modnames.get(f.value.id) == "quara.data_analysis.physicality_violation_check" else None)
         if isinstance(f, ast.Name) and f.id not in self.done and self.modnames.get(f.id, "").endswith("." + f.id):
             name = f.id     # from quara.data_analysis.physicality_violation_check import calc_unphysical_qobjects_n
-        if name in self.done:
+        if name in self.done and not self.done[name].get("nocall"):
             callee = self.done[name]
             pnames = [p for p, _ in callee["params"]]
             args = list(e.args) + [None] * (len(pnames) - len(e.args))
@@ -277,16 +359,24 @@ class Fn:
                     if a is not None:
                         self.safe(a, dict(env, **{n: (None, "report") for n, (_, t_) in env.items() if t_ == "flag"}))
                     continue
+                if pty == "skip":
+                    continue
                 if a is None:
                     fail(e, "argument %s of %s left to its default" % (pn, name))
                 vals.append(a); tys.append(pty)
             if callee.get("pure"):
-                return self.args(vals, tys, env, e, lambda ts: k("(gen_%s%s)" % (name.strip("_"), "".join(" " + t for t in ts)), callee["ret"]))
+                return self.args(vals, tys, env, e, lambda ts: k("(gen_%s%s)" % (callee.get("coq", name.strip("_")), "".join(" " + t for t in ts)), callee["ret"]))
             self.monadic()
             v = self.fresh("r")
             return self.args(vals, tys, env, e, lambda ts: "obind (gen_%s%s) (fun %s => %s)" % (
-                name.strip("_"), "".join(" " + t for t in ts), v, k(v, callee["ret"])))
+                callee.get("coq", name.strip("_")), "".join(" " + t for t in ts), v, k(v, callee["ret"])))
         fail(e, "call %s" % ast.unparse(e))
+
+    def nterm(self, env):
+        for n_, (t, ty) in env.items():
+            if ty == "csys":
+                return t
+        raise Unsupported("no composite system in scope")
 
     def args(self, exprs, tys, env, node, k):
         def go(i, acc):
@@ -305,6 +395,11 @@ class Fn:
             if ty == "row" and t.args[1].id in ("EstimationResult", "QOperation"):
                 return t.args[1].id == "EstimationResult"
             fail(t, "isinstance(%s : %s, %s)" % (t.args[0].id, ty, t.args[1].id))
+        if isinstance(t, ast.Compare) and len(t.ops) == 1 and isinstance(t.ops[0], ast.Eq) and isinstance(t.left, ast.Name) \
+                and str(env.get(t.left.id, (None, ""))[1]).startswith("const:") and isinstance(t.comparators[0], ast.Constant) and isinstance(t.comparators[0].value, str):
+            return env[t.left.id][1] == "const:" + t.comparators[0].value      # specialisation constant of the signature table
+        if isinstance(t, ast.UnaryOp) and isinstance(t.op, ast.Not) and isinstance(t.operand, ast.Name) and env.get(t.operand.id, (None, None))[1] == "csys":
+            return False      # a composite system is given (signature table): `if not c_sys:` (default 1-qubit system) is dead
         if isinstance(t, ast.Compare) and len(t.ops) == 1 and isinstance(t.ops[0], (ast.Is, ast.IsNot)) and isinstance(t.left, ast.Name) \
                 and isinstance(t.comparators[0], ast.Constant) and t.comparators[0].value is None and t.left.id in env:
             if env[t.left.id][1] in ("nat", "ests", "lest", "bool"):
@@ -336,6 +431,15 @@ class Fn:
             return self.stmts(rest, env, fall)      # docstring
         if self.report_only(st, env):
             return self.stmts(rest, env, fall)
+        if self.spec["ret"] == "unit":
+            # the constructor: super().__init__(<untracked arguments>) and the store of the rate are the only other statements allowed
+            if isinstance(st, ast.Expr) and isinstance(st.value, ast.Call) and ast.unparse(st.value.func) == "super().__init__" and not st.value.args \
+                    and all(isinstance(kw.value, (ast.Name, ast.Constant)) and not (isinstance(kw.value, ast.Name) and env.get(kw.value.id, (None, None))[1] == "F")
+                            for kw in st.value.keywords):
+                return self.stmts(rest, env, fall)
+            if isinstance(st, ast.Assign) and ast.unparse(st.targets[0]) == "self._error_rate" and isinstance(st.value, ast.Name) and st.value.id == "error_rate":
+                env["\0stored"] = (None, "report")
+                return self.stmts(rest, env, fall)
         if isinstance(st, ast.Return):
             if st.value is None:
                 fail(st, "bare return")
@@ -421,6 +525,14 @@ class Fn:
                 acc, idx, body, env[it.args[0].id][0], cur, v, self.stmts(rest, env, fall))
         fail(st, "statement %s" % ast.unparse(st).splitlines()[0])
 
+    def check_rate_property(self):
+        """self.error_rate must be the property returning self._error_rate (stored by the translated __init__)"""
+        cl = self.spec["_class"]
+        pr = [x for x in cl.body if isinstance(x, ast.FunctionDef) and x.name == "error_rate"]
+        if len(pr) != 1 or [ast.unparse(d) for d in pr[0].decorator_list] != ["property"] or len(pr[0].body) != 1 \
+                or ast.unparse(pr[0].body[0]) != "return self._error_rate":
+            raise Unsupported("property error_rate is not `return self._error_rate`")
+
     def translate(self):
         f = self.f
         a = f.args
@@ -432,21 +544,29 @@ class Fn:
         for p, ty in self.spec["params"]:
             if ty == "flag":
                 env[p] = (None, "flag")
+            elif ty == "skip":
+                continue
+            elif ty.startswith("const:") or ty in ("dset", "dsetnew"):
+                env[p] = (p, ty)
             else:
                 env[p] = (p, ty); binders.append("(%s : %s)" % (p, COQTY[ty]))
         for p, ty in self.spec.get("extra", []):
             env["\0" + p] = (p, ty); binders.append("(%s : %s)" % (p, COQTY[ty]))
         ret = COQTY[self.spec["ret"]]
         end = lambda e_: fail(f, "control reaches the end of the function without return")
+        if self.spec["ret"] == "unit":        # __init__: falls off the end; it must have stored the rate
+            end = lambda e_: ("Some tt" if "\0stored" in e_ else fail(f, "the constructor does not store error_rate"))
+        if self.spec["name"].startswith("generate_") and self.spec.get("cls"):
+            self.check_rate_property()
         try:
             self.pure, self.n = True, 0
             body = self.stmts(f.body, dict(env), end)
             self.spec["pure"] = True
-            return "Definition gen_%s %s : %s :=\n  %s.\n" % (self.spec["name"].strip("_"), " ".join(binders), ret, body)
+            return "Definition gen_%s %s : %s :=\n  %s.\n" % (self.spec.get("coq", self.spec["name"].strip("_")), " ".join(binders), ret, body)
         except Impure:
             self.pure, self.n = False, 0
         body = self.stmts(f.body, dict(env), end)
-        return "Definition gen_%s %s : option (%s) :=\n  %s.\n" % (self.spec["name"].strip("_"), " ".join(binders), ret, body)
+        return "Definition gen_%s %s : option (%s) :=\n  %s.\n" % (self.spec.get("coq", self.spec["name"].strip("_")), " ".join(binders), ret, body)
 
 
 # ====================================================================================================================
@@ -707,6 +827,132 @@ class StreamFn:
         return "Definition gen_%s %s : sm (%s) :=\n  %s.\n" % (self.spec.get("coq", self.spec["name"].strip("_")), " ".join(binders), SCOQTY[self.spec["ret"]], body)
 
 
+# ====================================================================================================================
+# spawn structure of the flow entry point: which stream does sample i get, and where does its result go?
+FLOW = "quara/simulation/standard_qtomography_simulation_flow.py"
+
+
+def spawn_section(repo):
+    """execute_simulation_test_setting_unit: tracked values are the sample count (test_setting.n_sample), the object seed
+    (test_setting.seed_qoperation), the SeedSequence made of it, the list of generators made of its spawned children, the list of task
+    results.  Statements that mention none of them are dropped; anything else must be one of the forms below."""
+    tree = ast.parse(open(os.path.join(repo, FLOW)).read())
+    f = find_def(tree, dict(name="execute_simulation_test_setting_unit"))
+    task = find_def(tree, dict(name="execute_simulation_sample_unit"))
+    tparams = [a.arg for a in task.args.args]
+    env = {}          # python name -> (coq term, type)
+    ATTRS = {"test_setting.n_sample": ("n_sample", "nat"), "test_setting.seed_qoperation": ("seed_qoperation", "Z")}
+    lets, ret = [], None
+
+    def tracked(node):
+        for x in ast.walk(node):
+            if isinstance(x, ast.Name) and x.id in env:
+                return True
+            if isinstance(x, ast.Attribute) and ast.unparse(x) in ATTRS:
+                return True
+            if isinstance(x, ast.Call) and ast.unparse(x.func) in ("SeedSequence", "Generator", "MT19937", "joblib.Parallel", "joblib.delayed", "execute_simulation_sample_unit"):
+                return True
+        return False
+
+    def val(e):
+        u = ast.unparse(e)
+        if u in ATTRS:
+            return ATTRS[u]
+        if isinstance(e, ast.Name) and e.id in env:
+            return env[e.id]
+        if isinstance(e, ast.Call) and u.startswith("SeedSequence(") and len(e.args) == 1 and not e.keywords:
+            t, ty = val(e.args[0])
+            if ty != "Z":
+                fail(e, "SeedSequence of a %s" % ty)
+            return t, "seedseq"
+        # [Generator(MT19937(s)) for s in <seedseq>.spawn(<nat>)]
+        if isinstance(e, ast.ListComp) and len(e.generators) == 1 and not e.generators[0].ifs and isinstance(e.generators[0].target, ast.Name):
+            g = e.generators[0]
+            v = g.target.id
+            it = g.iter
+            if ast.unparse(e.elt) == "Generator(MT19937(%s))" % v and isinstance(it, ast.Call) and isinstance(it.func, ast.Attribute) and it.func.attr == "spawn" \
+                    and len(it.args) == 1 and not it.keywords:
+                sq, tys = val(it.func.value)
+                n, tyn = val(it.args[0])
+                if tys != "seedseq" or tyn != "nat":
+                    fail(e, "spawn of %s / %s" % (tys, tyn))
+                return "(py_spawn_streams %s %s)" % (sq, n), "lstream"
+        # joblib.Parallel(<untracked>)([joblib.delayed(execute_simulation_sample_unit)(..., i, ..., g, ...) for i, g in enumerate(<lstream>)])
+        if isinstance(e, ast.Call) and isinstance(e.func, ast.Call) and ast.unparse(e.func.func) == "joblib.Parallel" and len(e.args) == 1 and not e.keywords \
+                and not any(tracked(a) for a in e.func.args) and not any(tracked(k.value) for k in e.func.keywords) and isinstance(e.args[0], ast.ListComp):
+            lc = e.args[0]
+            g = lc.generators[0]
+            if len(lc.generators) != 1 or g.ifs or not (isinstance(g.iter, ast.Call) and ast.unparse(g.iter.func) == "enumerate" and len(g.iter.args) == 1 and not g.iter.keywords
+                                                        and isinstance(g.target, ast.Tuple) and len(g.target.elts) == 2 and all(isinstance(x, ast.Name) for x in g.target.elts)):
+                fail(e, "task list must be a comprehension over enumerate(<generators>)")
+            src, tys = val(g.iter.args[0])
+            if tys != "lstream":
+                fail(e, "enumerate over a %s" % tys)
+            iv, gv = g.target.elts[0].id, g.target.elts[1].id
+            c = lc.elt
+            if not (isinstance(c, ast.Call) and isinstance(c.func, ast.Call) and ast.unparse(c.func.func) == "joblib.delayed" and len(c.func.args) == 1
+                    and ast.unparse(c.func.args[0]) == "execute_simulation_sample_unit"):
+                fail(e, "task must be joblib.delayed(execute_simulation_sample_unit)(...)")
+            given = dict(zip(tparams, c.args))
+            for kw in c.keywords:
+                if kw.arg not in tparams or kw.arg in given:
+                    fail(e, "task argument %s" % kw.arg)
+                given[kw.arg] = kw.value
+            for pn, a in given.items():
+                uses = {x.id for x in ast.walk(a) if isinstance(x, ast.Name)} & {iv, gv}
+                want = {"sample_index": {iv}, "stream_qoperation": {gv}}.get(pn, set())
+                if uses != want or (want and not isinstance(a, ast.Name)):
+                    fail(e, "task parameter %s receives %s" % (pn, ast.unparse(a)))
+                if pn not in ("sample_index", "stream_qoperation") and tracked(a):
+                    fail(e, "tracked value in task parameter %s" % pn)
+            if "sample_index" not in given or "stream_qoperation" not in given:
+                fail(e, "the task is not handed its sample index and its generator")
+            return "(py_parallel_enumerate sample_task %s)" % src, "llres"
+        if u.startswith("list(itertools.chain.from_iterable(") and isinstance(e, ast.Call) and len(e.args) == 1 and len(e.args[0].args) == 1:
+            t, ty = val(e.args[0].args[0])
+            if ty != "llres":
+                fail(e, "chain.from_iterable of a %s" % ty)
+            return "(concat %s)" % t, "lres"
+        if isinstance(e, ast.List) and not e.elts:
+            return "(@nil R)", "lres"
+        fail(e, "tracked expression %s" % u[:80])
+
+    n = 0
+    for st in f.body:
+        if isinstance(st, ast.Expr) and isinstance(st.value, ast.Constant):
+            continue
+        if isinstance(st, ast.Return):
+            t, ty = val(st.value)
+            if ty != "lres":
+                fail(st, "returns a %s" % ty)
+            ret = t
+            break
+        if isinstance(st, ast.Assign) and len(st.targets) == 1 and isinstance(st.targets[0], ast.Name) and (tracked(st.value) or (isinstance(st.value, ast.List) and not st.value.elts)):
+            t, ty = val(st.value)
+            n += 1
+            v = "%s_%d" % (st.targets[0].id, n)
+            lets.append("let %s := %s in" % (v, t))
+            env[st.targets[0].id] = (v, ty)
+            continue
+        if tracked(st) and not (isinstance(st, ast.Expr) and isinstance(st.value, ast.Call) and ast.unparse(st.value.func).startswith("write_result")):
+            if isinstance(st, ast.Assign) and any(isinstance(x, ast.Name) and x.id in env for t_ in st.targets for x in ast.walk(t_)):
+                fail(st, "rebinding of a tracked variable by an unsupported statement")
+            if any(isinstance(x, ast.Name) and x.id in env and env[x.id][1] != "lres" for x in ast.walk(st)):
+                fail(st, "unsupported statement on tracked values: %s" % ast.unparse(st)[:80])
+        if any(isinstance(x, (ast.Return, ast.Raise)) for x in ast.walk(st)):
+            fail(st, "control flow in an untracked statement")
+        for t_ in (st.targets if isinstance(st, ast.Assign) else []):
+            for x in ast.walk(t_):
+                if isinstance(x, ast.Name) and x.id in env:
+                    fail(st, "untracked statement rebinds %s" % x.id)
+    if ret is None:
+        fail(f, "no return")
+    return ("Section GenSpawn.\nVariable R : Type.\n(* execute_simulation_sample_unit as a function of the sample index and the generator it is handed *)\n"
+            "Variable sample_task : nat -> key -> list R.\n\n(* %s : execute_simulation_test_setting_unit, lines %d-%d *)\n"
+            "Definition gen_execute_simulation_test_setting_unit (seed_qoperation : Z) (n_sample : nat) : list R :=\n  %s\n  %s.\nEnd GenSpawn.\n"
+            % (FLOW, f.lineno, f.end_lineno, "\n  ".join(lets), ret))
+
+
 def find_def(tree, spec):
     scope = tree.body
     if spec.get("cls"):
@@ -784,15 +1030,18 @@ def main(repo, out):
         fd = [f for f in scope if isinstance(f, ast.FunctionDef) and f.name == spec["name"]]
         if len(fd) != 1:
             raise Unsupported("function %s: %d definitions" % (spec["name"], len(fd)))
+        if spec.get("cls"):
+            spec["_class"] = cl[0]
         text.append("(* %s : %s%s, lines %d-%d *)\n%s" % (spec["file"], spec.get("cls", "") + "." if spec.get("cls") else "", spec["name"], fd[0].lineno, fd[0].end_lineno,
                                                           Fn(spec, fd[0], module_names(tree), done).translate()))
-        done[spec["name"]] = spec
+        if not spec.get("cls") or spec["name"] == "execute_physicality_violation_check":
+            done.setdefault(spec["name"], spec)
     with open(out, "w") as f:
         f.write("(* GENERATED by gen/c15_py2coq.py from the current quara source - do not edit *)\n"
-                "From Coq Require Import List Arith Bool.\nFrom QV.Core Require Import OF.\nFrom QV.Model Require Import C15_PhysCheck C15_PySem.\n"
+                "From Coq Require Import List Arith Bool.\nFrom QV.Core Require Import OF Sums Mat.\nFrom QV.Model Require Import QObj C15_PhysCheck C15_PySem.\n"
                 "From Coq Require Import ZArith.\nFrom QV.Model Require Import C15_Dataflow.\n"
                 "Import ListNotations.\n\nSection Gen.\nContext (F : OF).\nVariable th : thresholds F.\n\n" + "\n".join(text) + "\nEnd Gen.\n\n"
-                + stream_section(repo))
+                + stream_section(repo) + "\n" + spawn_section(repo))
 
 
 if __name__ == "__main__":
